@@ -37,7 +37,8 @@ def asFS? (j : Json) : Option FS := do
   let root ← (j.getObjVal? "root").toOption.bind asNode?
   let cwd ← (j.getObjVal? "cwd").toOption.bind asComps?
   let mx ← (j.getObjVal? "max").toOption.bind asNat?
-  pure ⟨root, cwd, mx⟩
+  let ex ← (j.getObjVal? "extra").toOption.bind asNat?
+  pure ⟨root, cwd, mx, ex⟩
 
 def strOf (p : PPath) : PName :=
   let body := (p.parts.intersperse [SLASH]).flatten
